@@ -120,6 +120,13 @@ def cases(rng, tier):
 
 
 def relevant(rec, case):
+    # where exactly the explicit limit lies is not part of the property (only that it is explicit and allows thousands
+    # of frames): an implementation that still computes the (monitored, arithmetically known) value where the model
+    # already reports its limit has not failed C05 — that difference is a broken correspondence without a failing input
+    d = rec.get('detail', {})
+    a, m = d.get('impl', {}), d.get('model', {})
+    if a.get('kind') == 'ok' and m.get('kind') == 'limit':
+        return False
     return True
 
 
